@@ -1,5 +1,6 @@
 import XModel.RefsTable
 import XModel.ManagerC11
+import XModel.PickleHeap
 /-!
 # C12 — a pickled manager restores to an independent, behaviourally identical copy
 The pickle protocol is the model: reduce every node to (class, constructor arguments), rebuild by
@@ -40,5 +41,117 @@ theorem C12_restored_same_behaviour (sched1 sched2 : Sched) (s : MState) (m : In
     (s1 : MState) (hok : setValue sched1 s p v = (s1, none)) :
     ∃ s2, setValue sched2 { s with idx := m } p v = (s2, none) ∧ s2.store = s1.store ∧ s2.defs = s1.defs :=
   reindex_same_behaviour sched1 sched2 s m p v hi hi' hc hnodef sc hvs1 hvs2 s1 hok
+
+
+/-! ### independence and isomorphism on a heap of mutable objects (XModel/PickleHeap.lean)
+
+The manager model's store is a pure tree: it cannot state that two managers do not share objects.  `PickleHeap` models
+Python's containers as objects on a heap holding references (arbitrary sharing, cycles), assignment as mutation of the
+parent object, and `pickle.loads(pickle.dumps(·))` as a memoised deep copy into fresh addresses.  The correspondence
+check compares `PickleHeap.canon` with the same numbering computed on real unpickled object graphs by `id()`. -/
+
+/-- **assignments to either one never affect the other** — on a heap of mutable container objects (dicts / lists holding references, arbitrary sharing and cycles), `deepCopy` = `pickle.loads(pickle.dumps(roots))`: run ANY interleaving of assignments through the original roots and through the restored roots; every read through an original root is what the original's own assignments alone produce on the heap that was never pickled, and every read through a restored root is what the restored side's own assignments alone produce -/
+theorem C12_copies_independent :
+    ∀ {h : PickleHeap.Heap},
+      PickleHeap.WF h →
+        ∀ {roots : List PickleHeap.Addr},
+          (∀ (r : PickleHeap.Addr), r ∈ roots → r < List.length h) →
+            ∀ (ws : List (PickleHeap.Side × PickleHeap.Assign)) (f : Nat) (path : List PickleHeap.Key),
+              (∀ (r : PickleHeap.Addr),
+                  r ∈ roots →
+                    PickleHeap.valueOf
+                        (PickleHeap.runMixed (PickleHeap.deepCopy h roots).fst roots (PickleHeap.deepCopy h roots).snd ws) f
+                        r path =
+                      PickleHeap.valueOf (PickleHeap.runAssigns h roots (PickleHeap.sideOf PickleHeap.Side.orig ws)) f r
+                        path) ∧
+                ∀ (r' : PickleHeap.Addr),
+                  r' ∈ (PickleHeap.deepCopy h roots).snd →
+                    PickleHeap.valueOf
+                        (PickleHeap.runMixed (PickleHeap.deepCopy h roots).fst roots (PickleHeap.deepCopy h roots).snd ws) f
+                        r' path =
+                      PickleHeap.valueOf
+                        (PickleHeap.runAssigns (PickleHeap.deepCopy h roots).fst (PickleHeap.deepCopy h roots).snd
+                          (PickleHeap.sideOf PickleHeap.Side.copy ws))
+                        f r' path :=
+  @PickleHeap.copies_independent
+
+/-- the restored containers unfold to the same tree value as the originals, along every path and to every depth -/
+theorem C12_restored_isomorphic :
+    ∀ {h : PickleHeap.Heap},
+      PickleHeap.WF h →
+        ∀ {roots : List PickleHeap.Addr},
+          (∀ (r : PickleHeap.Addr), r ∈ roots → r < List.length h) →
+            ∀ {r : PickleHeap.Addr},
+              r ∈ roots →
+                ∀ (f : Nat) (path : List PickleHeap.Key),
+                  PickleHeap.valueOf (PickleHeap.deepCopy h roots).fst f (PickleHeap.copyAddr h roots r) path =
+                    PickleHeap.valueOf h f r path :=
+  @PickleHeap.copy_iso
+
+/-- no object is reachable from both an original and a restored root -/
+theorem C12_no_shared_object :
+    ∀ {h : PickleHeap.Heap},
+      PickleHeap.WF h →
+        ∀ {roots : List PickleHeap.Addr},
+          (∀ (r : PickleHeap.Addr), r ∈ roots → r < List.length h) →
+            ∀ (a : PickleHeap.Addr),
+              PickleHeap.Reach (PickleHeap.deepCopy h roots).fst roots a →
+                PickleHeap.Reach (PickleHeap.deepCopy h roots).fst (PickleHeap.deepCopy h roots).snd a → False :=
+  @PickleHeap.copy_disjoint
+
+/-- sharing inside one dump is preserved and nothing else is identified: two paths reach the same restored object iff they reach the same original object -/
+theorem C12_sharing_preserved :
+    ∀ {h : PickleHeap.Heap},
+      PickleHeap.WF h →
+        ∀ {roots : List PickleHeap.Addr},
+          (∀ (r : PickleHeap.Addr), r ∈ roots → r < List.length h) →
+            ∀ {r1 r2 : PickleHeap.Addr},
+              r1 ∈ roots →
+                r2 ∈ roots →
+                  ∀ {p1 p2 : List PickleHeap.Key} {a1 a2 : PickleHeap.Addr},
+                    PickleHeap.readPath h r1 p1 = some (PickleHeap.Val.ref a1) →
+                      PickleHeap.readPath h r2 p2 = some (PickleHeap.Val.ref a2) →
+                        ∃ c1 c2,
+                          PickleHeap.readPath (PickleHeap.deepCopy h roots).fst (PickleHeap.copyAddr h roots r1) p1 =
+                              some (PickleHeap.Val.ref c1) ∧
+                            PickleHeap.readPath (PickleHeap.deepCopy h roots).fst (PickleHeap.copyAddr h roots r2) p2 =
+                                some (PickleHeap.Val.ref c2) ∧
+                              (c1 = c2 ↔ a1 = a2) :=
+  @PickleHeap.copy_sharing
+
+/-- **same container contents under any further sequence of assignments**: in any interleaving, the restored side holds what the original would hold had it received the restored side's assignments -/
+theorem C12_restored_same_contents_under_assignments :
+    ∀ {h : PickleHeap.Heap},
+      PickleHeap.WF h →
+        ∀ {roots : List PickleHeap.Addr},
+          (∀ (r : PickleHeap.Addr), r ∈ roots → r < List.length h) →
+            ∀ (ws : List (PickleHeap.Side × PickleHeap.Assign)) {r : PickleHeap.Addr},
+              r ∈ roots →
+                ∀ (f : Nat) (path : List PickleHeap.Key),
+                  PickleHeap.valueOf
+                      (PickleHeap.runMixed (PickleHeap.deepCopy h roots).fst roots (PickleHeap.deepCopy h roots).snd ws) f
+                      (PickleHeap.copyAddr h roots r) path =
+                    PickleHeap.valueOf (PickleHeap.runAssigns h roots (PickleHeap.sideOf PickleHeap.Side.copy ws)) f r path :=
+  @PickleHeap.restored_behaves_as_original
+
+/-- the heap after the copy is well formed (no dangling reference, unique keys) and the restored roots are valid -/
+theorem C12_copy_well_formed :
+    ∀ {h : PickleHeap.Heap},
+      PickleHeap.WF h →
+        ∀ {roots : List PickleHeap.Addr},
+          (∀ (r : PickleHeap.Addr), r ∈ roots → r < List.length h) →
+            PickleHeap.WF (PickleHeap.deepCopy h roots).fst ∧
+              ∀ (r : PickleHeap.Addr),
+                r ∈ (PickleHeap.deepCopy h roots).snd → r < List.length (PickleHeap.deepCopy h roots).fst :=
+  @PickleHeap.deepCopy_WF
+
+/-- the canonical form (objects numbered in pickle's memo order, references as memo numbers) of the restored roots equals that of the originals — this is the form the correspondence check compares with real `pickle` -/
+theorem C12_canonical_form_preserved :
+    ∀ {h : PickleHeap.Heap},
+      PickleHeap.WF h →
+        ∀ {roots : List PickleHeap.Addr},
+          (∀ (r : PickleHeap.Addr), r ∈ roots → r < List.length h) →
+            PickleHeap.canon (PickleHeap.deepCopy h roots).fst (PickleHeap.deepCopy h roots).snd = PickleHeap.canon h roots :=
+  @PickleHeap.canon_deepCopy
 
 end Properties.C12
